@@ -310,6 +310,18 @@ def run_special():
     p = base + [("macro", "runb", ["blk"], [("splice", "blk")]), ("org", N(ORG)),
                 ("call", "runb", [("code", [("macro", "made2", ["x"], [("data", "db", [S("x")])])])]), ("call", "made2", [N(0x33)])]
     progs.append((p, "macro-defined-by-a-spliced-block", True))
+    # an argument names something that does NOT exist at the call site but is spelled like a parameter / a body label: still undefined
+    for tag, args in (("like-the-other-parameter", [N(0x11), S("plo")]), ("like-a-body-label", [S("bodyl"), N(1)]), ("like-itself", [S("phi"), N(2)])):
+        p = base + [("macro", "pair2", ["plo", "phi"], [("label", "bodyl"), ("data", "db", [S("plo"), S("phi")])]), ("org", N(ORG)), ("call", "pair2", args)]
+        progs.append((p, "undefined-argument-spelled-" + tag, False))
+    # an application nested in a macro body, the enclosing macro applied first with a label and then with a constant (and the reverse):
+    # what one expansion had to defer says nothing about the next
+    inner_m = ("macro", "recd", ["kind"], [("if", S("kind"), [("data", "db", [N(0x10), S("kind")])], [("data", "db", [N(0x20)])])])
+    outer_m = ("macro", "recw", ["v"], [("data", "db", [N(0xAA)]), ("call", "recd", [S("v")])])
+    for tag, order in (("label-then-constant", [("b", "&", S("fwdl"), N(0xFF)), N(3)]), ("constant-then-label", [N(3), ("b", "&", S("fwdl"), N(0xFF))]),
+                       ("constant-zero-then-label", [N(0), ("b", "&", S("fwdl"), N(0xFF))])):
+        p = base + [inner_m, outer_m, ("org", N(ORG))] + [("call", "recw", [a]) for a in order] + [("label", "fwdl"), ("data", "db", [N(0xF0)])]
+        progs.append((p, "nested-application-" + tag, False))
     # a named scope inside the body: its exports belong to the application's scope, never to the caller
     scb = [("scope", "sc", [("label", "sl"), ("data", "db", [N(1)])]), ("data", "dw", [S("sc.sl")])]
     p = base + [("macro", "msc", [], scb), ("org", N(ORG)), ("scope", "sc", [("label", "sl"), ("data", "db", [N(9)])]), ("call", "msc", []),
@@ -361,6 +373,20 @@ def run_special():
     if not first.accepted or second.accepted:
         viol.append({"key": "macro:invalid-program-accepted:undefined-macro-defined-by-an-earlier-assembly",
                      "msg": f"first assembly (defines ghost): {first.brief()}; second assembly applies ghost without defining it: {second.brief()}"})
+    # "applications are independent of each other": the bytes of [first, second] are the bytes of [first] followed by those of [second]
+    # (the bodies emit no value that depends on the layout; the reference is silent on conditions over deferred parameters)
+    tail = [("label", "fwdl"), ("data", "db", [N(0xF0)])]
+    head = base + [inner_m, outer_m, ("org", N(ORG))]
+    for tag, order in (("label-then-constant", [("b", "&", S("fwdl"), N(0xFF)), N(3)]), ("constant-then-label", [N(3), ("b", "&", S("fwdl"), N(0xFF))]),
+                       ("label-then-zero", [("b", "&", S("fwdl"), N(0xFF)), N(0)]), ("label-then-label-then-constant", [S("fwdl"), S("fwdl"), N(7)])):
+        outs = [impl.assemble(render.source(head + [("call", "recw", [a]) for a in sel] + tail), rom="low_rom") for sel in ([order[0]], order[1:], order)]
+        evals += 3
+        states += 1
+        if all(o.accepted and len(o.blocks) == 1 for o in outs):
+            b1, b2, b12 = (o.blocks[0][1] for o in outs)
+            if b12 != b1[:-1] + b2:
+                viol.append({"key": f"macro:applications-not-independent:nested-application-{tag}",
+                             "msg": f"[first] gives {b1.hex()}, [rest] gives {b2.hex()}, together they give {b12.hex()} :: {render.source(head + [('call', 'recw', [a]) for a in order] + tail)!r}"})
     for prog, tag, twin in progs:
         n, status = check(prog, tag, viol, want_twin=twin)
         evals += n
